@@ -256,7 +256,9 @@ def main_run(check: Check, tier: str, seed: int) -> int:
     lines: List[str] = []
     n_viol = 0
     known_hits: Dict[str, int] = {}
-    os.makedirs(os.path.join(VERIF, "replays"), exist_ok=True)
+    scratch = bool(os.environ.get("VERIF_NO_EVIDENCE"))
+    replay_dir = os.path.join(VERIF, ".work", "replays") if scratch else os.path.join(VERIF, "replays")
+    os.makedirs(replay_dir, exist_ok=True)
     for kind, v in sorted(merged["violations"].items()):
         if kind in open_kinds:
             known_hits[kind] = v["count"]
@@ -266,7 +268,7 @@ def main_run(check: Check, tier: str, seed: int) -> int:
             )
             continue
         n_viol += 1
-        rp = os.path.join(VERIF, "replays", f"{pid}_{kind}_{jhash(v['first']['spec'])}.json")
+        rp = os.path.join(replay_dir, f"{pid}_{kind}_{jhash(v['first']['spec'])}.json")
         with open(rp, "w") as f:
             json.dump({"property": pid, **v["first"]}, f, indent=1, default=repr)
         lines.append(f"VIOLATION property={pid} replay={rp}")
@@ -307,8 +309,9 @@ def main_run(check: Check, tier: str, seed: int) -> int:
         "coverage": cov, "assumptions": check.assumptions, "wall_s": round(wall, 2),
         "violations": n_viol,
     }
-    os.makedirs(os.path.join(VERIF, "evidence"), exist_ok=True)
-    with open(os.path.join(VERIF, "evidence", f"{pid}.json"), "w") as f:
+    ev_dir = os.path.join(VERIF, ".work", "evidence") if scratch else os.path.join(VERIF, "evidence")
+    os.makedirs(ev_dir, exist_ok=True)
+    with open(os.path.join(ev_dir, f"{pid}.json"), "w") as f:
         json.dump(ev, f, indent=1, default=repr)
     for ln in lines:
         print(ln)
